@@ -27,7 +27,8 @@ OPS = ["sleep", "checkpoint", "event_wait_set", "lock_acquire", "lock_ctx", "sem
        "reduce_empty_initial", "reduce_empty_async_initial", "reduce_single_no_initial", "reduce_single_async_no_initial", "run_sync_cancelled", "taskgroup_empty"]
 SYNC_OPS = ["lock_fast", "sem_fast", "lock_nowait", "sem_nowait", "limiter_nowait", "send_nowait", "receive_nowait", "close", "event_set", "cond_notify"]
 ITER_FUNCS = ["accumulate", "batched", "chain", "combinations", "combinations_with_replacement", "compress", "cycle0", "dropwhile", "filterfalse", "groupby",
-              "islice", "islice_empty_range", "pairwise", "permutations", "product", "repeat", "repeat0", "starmap", "takewhile", "zip_longest", "zip_longest_none", "tee", "count_prefix"]
+              "islice", "islice_empty_range", "pairwise", "permutations", "product", "repeat", "repeat0", "starmap", "takewhile", "zip_longest", "zip_longest_none", "tee", "count_prefix",
+              "tee_second", "tee_fork_exhausted", "tee_fork_mid", "accumulate_initial", "chain_from_iterable", "islice_step", "zip_longest_fill"]
 
 
 def cell(sym, cov, op, outermost=False):
@@ -424,16 +425,50 @@ def iter_cell(sym, cov, fn):
             return ai.tee(xs, 1)[0]
         if fn == "count_prefix":
             return ai.islice(ai.count(), n)
+        if fn == "accumulate_initial":
+            return ai.accumulate(xs, initial=0)
+        if fn == "chain_from_iterable":
+            return ai.chain.from_iterable([xs, []])
+        if fn == "islice_step":
+            return ai.islice(xs, 0, None, 2)
+        if fn == "zip_longest_fill":
+            return ai.zip_longest(xs, [], fillvalue=0)
         raise AssertionError(fn)
+
+    async def amake():
+        # iterators that need some asynchronous preparation OUTSIDE the (possibly cancelled) scope
+        if fn == "tee_second":
+            # the sibling iterator has already pulled everything from the source: this one is served from the links
+            a, b = ai.tee(xs, 2)
+            async for _ in a:
+                pass
+            return b
+        if fn == "tee_fork_exhausted":
+            # the "peekable iterator" idiom: tee(iterator, 1) forks an existing tee iterator -- here one that has been run to its end
+            (a,) = ai.tee(xs, 1)
+            async for _ in a:
+                pass
+            return ai.tee(a, 1)[0]
+        if fn == "tee_fork_mid":
+            a, b = ai.tee(xs, 2)
+            async for _ in a:
+                pass
+            if n >= 1:
+                await anext(b)
+            return ai.tee(b, 1)[0]
+        return make()
 
     async def main():
         marker = []
+        it = await amake()
+        for _ in range(3):
+            await asyncio.sleep(0)
         with CancelScope() as sc:
             if cancelled:
                 sc.cancel()
             loop.call_soon(marker.append, 1)
             try:
-                out["items"] = [x async for x in make()]
+                out["items"] = [x async for x in it]
                 out["raised"] = False
             except asyncio.CancelledError:
                 out["raised"] = True
